@@ -185,4 +185,92 @@ theorem genLookup_eq (mins : List (Bnd α)) (x : α) : genLookup mins x = lookup
 
 end order
 
+/-! ### `__init__`: edge cleaning -/
+
+section clean
+variable {γ : Type} [LE γ] [LT γ] [DecidableLE γ] [DecidableLT γ] [DecidableEq γ]
+
+theorem pyRange_zero (b : Int) : pyRange 0 b = (List.range' 0 b.toNat).map Int.ofNat := by
+  have := pyRange_nat 0 b
+  simpa using this
+
+/-- insertion sort permutes, whatever the relation -/
+theorem insAsc_perm' (x : γ) (l : List γ) : (insAsc x l).Perm (x :: l) := by
+  induction l with
+  | nil => exact List.Perm.refl _
+  | cons y ys ih =>
+    unfold insAsc
+    split
+    · exact List.Perm.refl _
+    · exact (List.Perm.cons y ih).trans (List.Perm.swap x y ys)
+
+theorem sortAsc_perm' (l : List γ) : (sortAsc l).Perm l := by
+  induction l with
+  | nil => exact List.Perm.refl _
+  | cons x xs ih => exact (insAsc_perm' x _).trans (List.Perm.cons x ih)
+
+/-- the generated duplicate-removal loop (list `unique_bins`, set `seen`) is `dedupFrom` of the model -/
+theorem genDedupLoop_eq : ∀ (xs unique seen : List γ),
+    genDedupLoop xs unique seen = unique ++ dedupFrom seen xs := by
+  intro xs
+  induction xs with
+  | nil => intro u s; simp [genDedupLoop, dedupFrom]
+  | cons x xs ih =>
+    intro u s
+    simp only [genDedupLoop, dedupFrom, ih]
+    by_cases h : x ∈ s <;> simp [h, List.append_assoc]
+
+/-- the generated `all(bins[i] <= bins[i+1] for i in range(len(bins)-1))` is `isSortedLE` of the model -/
+theorem genSortedLoop_eq (bins : List γ) : ∀ (m k : Nat), m = bins.length - 1 - k →
+    genSortedLoop bins ((List.range' k m).map Int.ofNat) = .ok (isSortedLE (bins.drop k)) := by
+  intro m
+  induction m with
+  | zero =>
+    intro k hm
+    have hl : (bins.drop k).length ≤ 1 := by rw [List.length_drop]; omega
+    simp only [List.range'_zero, List.map_nil, genSortedLoop]
+    rcases hd : bins.drop k with _ | ⟨a, _ | ⟨b, t⟩⟩
+    · rfl
+    · rfl
+    · rw [hd] at hl; simp at hl
+  | succ m ih =>
+    intro k hm
+    have hk : k + 1 < bins.length := by omega
+    have hk0 : k < bins.length := by omega
+    rw [List.range'_succ, List.drop_eq_getElem_cons hk0, List.drop_eq_getElem_cons hk]
+    have h1 : pyIdx bins (Int.ofNat k + 1) = .ok bins[k + 1] := by
+      have : (Int.ofNat k + 1) = ((k + 1 : Nat) : Int) := by simp
+      rw [this]; exact pyIdx_ok_of_lt bins (k + 1) hk
+    have h1' : pyIdx bins (1 + Int.ofNat k) = .ok bins[k + 1] := by rw [Int.add_comm]; exact h1
+    simp only [List.map_cons, genSortedLoop, pyIdx_ofNat_lt bins k hk0, h1, h1', isSortedLE]
+    rw [ih (k + 1) (by omega), List.drop_eq_getElem_cons hk]
+    by_cases h : bins[k] ≤ bins[k + 1] <;> simp [h]
+
+theorem any_congr' {f g : γ → Bool} (h : ∀ v, f v = g v) (l : List γ) : l.any f = l.any g := by
+  have : f = g := funext h
+  rw [this]
+
+/-- **Tie T, edge cleaning.** `__init__` as regenerated from the current source — sortedness test, in-place sort,
+duplicate removal, range check — raises `ValueError` exactly when an edge is outside `[lo, hi]` and otherwise
+stores the model's `cleanEdges`. -/
+theorem genInit_eq (lo hi : γ) (edges : List γ) :
+    genInit lo hi edges =
+      if edgesInRange lo hi edges then .ok (cleanEdges edges) else .error .value := by
+  unfold genInit
+  have hr : pyRange 0 (((edges.length : Nat) : Int) - 1) = (List.range' 0 (edges.length - 1)).map Int.ofNat := by
+    rw [pyRange_zero]; congr 2; omega
+  rw [hr, genSortedLoop_eq edges _ 0 (by omega)]
+  have hp : ∀ f : γ → Bool, (sortAsc edges).any f = edges.any f := fun f => (sortAsc_perm' edges).any_eq
+  -- the generated side first: the range test becomes the model's predicate (any Boolean combination of the two
+  -- comparisons with the same truth table is accepted), the sorted copy has the same `any`
+  cases hs : isSortedLE edges <;>
+    simp only [List.drop_zero, genDedupLoop_eq, List.nil_append, hs, Bool.not_false, Bool.not_true, if_true,
+      if_false, Bool.false_eq_true, hp] <;>
+    rw [any_congr' (g := fun v => decide (v < lo) || decide (hi < v)) (l := edges)
+      (by intro v; by_cases h1 : v < lo <;> by_cases h2 : hi < v <;> simp [h1, h2])] <;>
+    simp only [edgesInRange, cleanEdges, hs, if_true, if_false, Bool.false_eq_true] <;>
+    cases edges.any (fun v => decide (v < lo) || decide (hi < v)) <;> simp
+
+end clean
+
 end SparkxVerif.CentralityGen
